@@ -250,7 +250,7 @@ def build_tasks(ctx, which_units=False):
         n = LIMITS[p[0]][1 if ctx.thorough else 0]
         # recognisers whose failures are recorded keyed by input get a seed-independent query set (a closed
         # list of inputs); VERIF_SEED drives the fast recognisers, the unit sample and the preprocess strings
-        r = common.rng_for(0, 'span-gen', p[0], p[1], p[2]) if p[0] in ('DateTime', 'NumberWithUnit') \
+        r = common.rng_for(0, 'span-gen', p[0], p[1], p[2]) if p[0] in ('DateTime', 'NumberWithUnit', 'Sequence') \
             else common.rng_for(ctx.seed, 'span', 'gen', p[0], p[1], p[2])
         for family, q in gen_queries(r, p[0], p[2], ents, words, n):
             tasks.append((p[0], p[1], p[2], q, ref0 if p[0] == 'DateTime' else None))
@@ -423,10 +423,11 @@ def pipeline(ctx, prop):
             continue
         if r[0] == 'error':
             stats['error'] += 1
-            ctx.report('property', 'parse-raises:%s' % r[1].split(':')[0],
-                       'Model.parse raised on %r (%s %s): %s' % (t[3], t[1], t[2], r[1]),
-                       failing_input={'query': t[3], 'model': t[1], 'culture': t[2], 'error': r[1]},
-                       property_fails=False)
+            # a call that raises returns no entity: neither property speaks about it (counted, sampled in the
+            # evidence and handed to the owner of the recogniser's robustness property)
+            ctx.extra.setdefault('parse_error_samples', [])
+            if len(ctx.extra['parse_error_samples']) < 10:
+                ctx.extra['parse_error_samples'].append({'query': t[3], 'model': t[1], 'culture': t[2], 'error': r[1]})
             continue
         spans = r[1]
         stats['none_results'] += r[2]
